@@ -188,8 +188,7 @@ PROPS.update({
         "assumptions": [A_INT, A_TYPES, A_TERM, A_WALK, A_FS, A_STRIP,
                         "'processed' when auto-exclusion is on: the directory holds a kept file whose name ends in '.cmake' in "
                         "lower case (the property's quantifier puts a lower-case .cmake file next to mixed-case ones); without "
-                        "-r the walk ends after the first PROCESSED directory (a skipped top directory - outside the quantifier - "
-                        "lets the walk go on)",
+                        "-r the walk ends after its first step, processed or skipped (F19 repaired)",
                         "page content = what CMinx produces for the file on its own: every page is produced by the same call "
                         "document_single_file(file, top, settings') whose contract is proved; settings' differs from the caller's "
                         "only in rst.prefix (copy.deepcopy contract, T-OS/T-LIB)"],
